@@ -99,7 +99,52 @@ def reference(n, events):
     return ref
 
 
+def judge_overlap(n, events, axes, lst, dct):
+    """windows that overlap: on a row covered by several contexts any of their flags is acceptable (the statement does not
+    rank them); everything else - completion, one result per key, uncovered rows, data / axes on covered rows - is judged"""
+    vs = []
+    acc = {}
+    for ev in events:
+        for k in ev["keys"]:
+            rows = acc.setdefault(tuple(k), [set() for _ in range(n)])
+            for r in range(*ev["w"]):
+                rows[r].add(flag_of(r, k))
+    s = src(n)
+    shape = "+".join("all" if tuple(e["w"]) == (0, n) else "partial" for e in events)
+    if isinstance(lst, alpha.Raised):
+        vs.append(V(f"{PROP}|list|overlap={shape}|symptom=raises:{lst.name}", f"collect_results(list) raised {lst.name} on overlapping windows ({shape}): {lst.msg}", None, repr(lst)))
+    else:
+        seen = {(c.stream_id, c.test): c for c in lst}
+        if set(seen) != set(acc) or len(lst) != len(seen):
+            vs.append(V(f"{PROP}|list|overlap|symptom=key-set", "collected keys differ from the configured (stream,test) set", sorted(map(list, acc)), sorted(map(list, seen))))
+        for key, rows in acc.items():
+            c = seen.get(key)
+            if c is None:
+                continue
+            vals, _, _ = alpha.flags_of(c.results)
+            if vals is None or len(vals) != n or any((v is not None) != bool(a) or (a and v not in a) for v, a in zip(vals, rows)):
+                vs.append(V(f"{PROP}|list|overlap={shape}|symptom=results", f"list form: result of {key} is {vals}, acceptable per row {[sorted(a) for a in rows]}", [sorted(a) for a in rows], vals))
+            arr = c.data
+            try:
+                got = [None if np.ma.getmaskarray(arr)[i] else float(np.ma.getdata(arr)[i]) for i in range(len(arr))]
+            except Exception as e:  # noqa: BLE001
+                got = repr(e)
+            if not isinstance(got, list) or len(got) != n or any(a and g != float(s[key[0]][i]) for i, (g, a) in enumerate(zip(got, rows))):
+                vs.append(V(f"{PROP}|list|overlap={shape}|symptom=data:wrong-on-covered-rows", f"list form: collected data of {key} is {got}", [float(v) for v in s[key[0]]], got))
+    if isinstance(dct, alpha.Raised):
+        vs.append(V(f"{PROP}|dict|overlap={shape}|symptom=raises:{dct.name}", f"collect_results(dict) raised {dct.name} on overlapping windows: {dct.msg}", None, repr(dct)))
+    else:
+        flat = {(sid, t): arr for sid, mods in dct.items() for mod, tests in mods.items() for t, arr in tests.items()}
+        for key, rows in acc.items():
+            vals = alpha.flags_of(flat[key])[0] if key in flat else None
+            if vals is None or len(vals) != n or any((v not in a) if a else v != 2 for v, a in zip(vals, rows)):
+                vs.append(V(f"{PROP}|dict|overlap={shape}|symptom=results", f"dict form: result of {key} is {vals}", [sorted(a) or [2] for a in rows], vals))
+    return vs
+
+
 def judge_collected(n, events, axes, lst, dct, label=""):
+    if not disjoint_ok(events):
+        return judge_overlap(n, events, axes, lst, dct)
     vs = []
     ref = reference(n, events)
     s = src(n)
@@ -185,9 +230,45 @@ def check_case(case):
     return vs, len(events) >= 2, obs, 0, 2
 
 
+def check_stream_overlap(case):
+    """real ContextResults of a stream run whose contexts OVERLAP (an un-windowed context and a windowed one for the same
+    stream and test, in both orders): collection completes; a row carries the flag of one of the contexts covering it"""
+    from ioos_qc.results import collect_results
+
+    S.install_probes()
+    n = case["n"]
+    tab = S.table(n, case["z"], case["ll"])
+    lo, hi = S.T0 + case["cut"][0] * S.DAY, S.T0 + case["cut"][1] * S.DAY
+    wide = dict(start=None, end=None, streams={"v": dict(qartod=dict(vprobe_test=dict(code=3), spike_test=dict(suspect_threshold=1, fail_threshold=5)))})
+    part = dict(start=lo, end=hi, streams={"v": dict(qartod=dict(vprobe_test=dict(code=4), spike_test=dict(suspect_threshold=1, fail_threshold=5)))})
+    ctxs = [wide, part] if case["order"] == "all-first" else [part, wide]
+    res = alpha.call(S.run_frontend, case["fe"], tab, S.make_config(ctxs))
+    sig = f"{PROP}|stream:{case['fe']}|overlap={case['order']}"
+    if isinstance(res, alpha.Raised):
+        return [V(f"{sig}|symptom=raises:{res.name}", f"{case['fe']} raised {res.name}: {res.msg}", None, repr(res))], True, None, 0, 1
+    vs = []
+    inwin = [lo <= t < hi for t in tab["time"]]
+    for how in ("list", "dict"):
+        got = alpha.call(collect_results, list(res), how=how)
+        if isinstance(got, alpha.Raised):
+            vs.append(V(f"{sig}|{how}|symptom=raises:{got.name}", f"collect_results({how}) of a run with an un-windowed and a windowed context for the same test raised {got.name}: {got.msg}", "completes", repr(got)))
+            continue
+        if how == "list":
+            flags = {f"{c.stream_id}:{c.test}": alpha.flags_of(c.results)[0] for c in got}
+        else:
+            flags = {f"{s_}:{t}": alpha.flags_of(a)[0] for s_, m in got.items() for p_, ts in m.items() for t, a in ts.items()}
+        pv = flags.get("v:vprobe_test")
+        if pv is None or len(pv) != n or any(v not in ((3, 4) if w else (3,)) for v, w in zip(pv, inwin)):
+            vs.append(V(f"{sig}|{how}|symptom=rows", f"v:vprobe_test collected as {pv}; rows inside the window may carry 3 or 4, the others 3", [[3, 4] if w else [3] for w in inwin], pv))
+    return vs, True, None, 0, 3
+
+
 def check_stream_case(case):
     """real ContextResults of a stream run over disjoint windows, collected in a permuted order."""
     from ioos_qc.results import collect_results
+
+    if case.get("overlap"):
+        return check_stream_overlap(case)
 
     S.install_probes()
     n = case["n"]
@@ -300,6 +381,7 @@ def tasks(tier):
         for first in range(len(menu)):
             ts.append(("seq", n, axes, first, DEPTH[tier]))
         ts.append(("double", n, axes))
+        ts.append(("overlap", n, axes))
     for axes in ("all", "none"):
         ts.append(("bigseq", 30, axes))
         ts.append(("bigseq", 1500, axes))
@@ -347,6 +429,20 @@ def run_task(task, acc):
                         seq.insert(pos, o)
                         yield dict(n=n, axes=axes, events=seq)
         run_cases(acc, gen(), check_case)
+    elif kind == "overlap":
+        _, n, axes = task
+
+        def gen():
+            ws = windows(n)
+            for k in range(len(KEYS[:2])):
+                for w1 in ws:
+                    for w2 in ws:
+                        if set(range(*w1)) & set(range(*w2)):
+                            e1, e2 = dict(w=list(w1), keys=[list(KEYS[k])]), dict(w=list(w2), keys=[list(KEYS[k])])
+                            yield dict(n=n, axes=axes, events=[e1, e2])
+                            for w3 in ((0, n), (1, n - 1)):
+                                yield dict(n=n, axes=axes, events=[e1, e2, dict(w=list(w3), keys=[list(KEYS[k])])])
+        run_cases(acc, gen(), check_case)
     elif kind == "double":
         _, n, axes = task
 
@@ -375,6 +471,9 @@ def run_task(task, acc):
             if fe in ("pandas:range", "pandas:shift", "xarray:coord", "netcdf") and z:
                 for n, cuts in ((4, [2]), (5, [1, 3])):
                     yield dict(kind="stream", fe=fe, n=n, z=z, ll=ll, cuts=cuts, perm=list(range((len(cuts) + 1) * 4)), axis_stream=True)
+            for n, cut in ((4, (1, 3)), (5, (0, 2)), (3, (1, 2)), (4, (0, 4))):
+                for order in ("all-first", "window-first"):
+                    yield dict(kind="stream", fe=fe, n=n, z=z, ll=ll, overlap=True, cut=list(cut), order=order)
             for n, cuts in ((20, [0.6, 2.6, 4.1]), (9, [0.3]), (12, [1.0, 1.1])):
                 nres = (len(cuts) + 1) * 3
                 yield dict(kind="stream", fe=fe, n=n, z=z, ll=ll, cuts=cuts, perm=list(range(nres)), subsec=True)
